@@ -2,5 +2,6 @@ SPECIFICATION Spec
 CONSTANTS NMin = 3
           NMax = 10
           TailNMax = 32
-INVARIANT TailOk PairsOk ShiftOk
+          LatN = {9, 11, 12, 14, 16, 18, 20, 21, 24, 27, 28, 29, 30, 31, 32}
+INVARIANT TailOk PairsOk ShiftOk LatOk
 CHECK_DEADLOCK FALSE
